@@ -21,6 +21,7 @@ func main() {
 	repo := flag.String("repo", "/repo", "repository under test")
 	verif := flag.String("verif", "/verif", "verif directory")
 	replay := flag.String("replay", "", "replay a violation file natively")
+	verbose := flag.Bool("v", false, "per-job output")
 	flag.Parse()
 	if *replay != "" {
 		os.Exit(drive.ReplayFileCmd(*repo, *verif, *replay))
@@ -38,7 +39,7 @@ func main() {
 	}
 	seed, _ := strconv.ParseInt(os.Getenv("VERIF_SEED"), 10, 64)
 	opt := drive.Options{Property: prop, Tier: *tier, Seed: seed, Workers: *workers, RepoDir: *repo, VerifDir: *verif,
-		Solver: *solver, OnlyCase: *only, MaxJobs: *maxJobs, NoReplay: *noReplay, TimeoutMs: *timeout}
+		Solver: *solver, OnlyCase: *only, MaxJobs: *maxJobs, NoReplay: *noReplay, TimeoutMs: *timeout, Verbose: *verbose}
 	if opt.TimeoutMs == 0 {
 		opt.TimeoutMs = 10000
 		if *tier == "thorough" {
